@@ -339,6 +339,59 @@ Proof.
   destruct (H2 y (or_introl eq_refl)) as [x [[] _]].
 Qed.
 
+
+Lemma F2_length {A B} (P : A -> B -> Prop) l1 l2 : Forall2 P l1 l2 -> length l1 = length l2.
+Proof. induction 1; cbn; congruence. Qed.
+
+(** two lists of decimals with the same values up to order *)
+Definition lrel (l1 l2 : list dec) : Prop :=
+  same_values l1 l2 /\ qsum l1 == qsum l2 /\ length l1 = length l2.
+
+Lemma lrel_app a1 b1 a2 b2 : Forall2 deqv a1 a2 -> Forall2 deqv b1 b2 -> lrel (a1 ++ b1) (a2 ++ b2).
+Proof.
+  intros Ha Hb. split; [|split].
+  - apply same_values_app; apply same_values_forall2; assumption.
+  - rewrite !qsum_app, (qsum_resp _ _ Ha), (qsum_resp _ _ Hb). reflexivity.
+  - rewrite !app_length, (F2_length _ _ _ Ha), (F2_length _ _ _ Hb). reflexivity.
+Qed.
+
+Lemma lrel_app_comm a1 b1 a2 b2 : Forall2 deqv a1 a2 -> Forall2 deqv b1 b2 -> lrel (a1 ++ b1) (b2 ++ a2).
+Proof.
+  intros Ha Hb. split; [|split].
+  - apply same_values_app_comm; apply same_values_forall2; assumption.
+  - rewrite !qsum_app, (qsum_resp _ _ Ha), (qsum_resp _ _ Hb). ring.
+  - rewrite !app_length, (F2_length _ _ _ Ha), (F2_length _ _ _ Hb). apply Nat.add_comm.
+Qed.
+
+Lemma lrel_nil l1 l2 : lrel l1 l2 -> l1 = [] -> l2 = [].
+Proof. intros [_ [_ Hl]] ->. destruct l2; [reflexivity | discriminate Hl]. Qed.
+
+Lemma lrel_sum l1 l2 : lrel l1 l2 -> deqv (sum_of l1) (sum_of l2).
+Proof. intros [_ [Hq _]]. unfold deqv. rewrite !sum_of_value. exact Hq. Qed.
+
+Definition min_of (l : list dec) : dec := match l with [] => dzero | [d] => d | d :: rest => dmin d rest end.
+Definition max_of (l : list dec) : dec := match l with [] => dzero | [d] => d | d :: rest => dmax d rest end.
+
+Lemma min_of_cons d rest : min_of (d :: rest) = dmin d rest.
+Proof. destruct rest; reflexivity. Qed.
+Lemma max_of_cons d rest : max_of (d :: rest) = dmax d rest.
+Proof. destruct rest; reflexivity. Qed.
+
+Lemma lrel_min l1 l2 : lrel l1 l2 -> deqv (min_of l1) (min_of l2).
+Proof.
+  intros [Hs [_ Hl]]. destruct l1 as [|d1 r1], l2 as [|d2 r2]; try discriminate Hl; [apply deqv_refl|].
+  rewrite !min_of_cons. apply dmin_same. exact Hs.
+Qed.
+
+Lemma lrel_max l1 l2 : lrel l1 l2 -> deqv (max_of l1) (max_of l2).
+Proof.
+  intros [Hs [_ Hl]]. destruct l1 as [|d1 r1], l2 as [|d2 r2]; try discriminate Hl; [apply deqv_refl|].
+  rewrite !max_of_cons. apply dmax_same. exact Hs.
+Qed.
+
+Lemma Forall2_deqv_refl l : Forall2 deqv l l.
+Proof. induction l; constructor; [apply deqv_refl | assumption]. Qed.
+
 Print Assumptions dnorm_unique.
 Print Assumptions int_part_resp.
 Print Assumptions dis_integer_resp.
